@@ -1,4 +1,5 @@
 import WebPkg.Proofs.Mice
+import WebPkg.Proofs.MicePostError
 /-
   C15 — MI decoder releases only data authenticated by the digest.
   No injectivity of SHA-256 is assumed (it is false): every conclusion has the form
@@ -93,5 +94,32 @@ theorem read_step (st : State) (n : Nat) (hrs : 0 < st.rs ∨ st.nextProof = non
     | (st', bs, .ok) => (future H st).1 = bs ++ (future H st').1 ∧ (future H st').2 = (future H st).2 ∧
         (0 < st'.rs ∨ st'.nextProof = none)
     | (_, bs, s) => bs = [] ∧ (future H st).1 = [] ∧ (future H st).2 = s := read_refines H st n hrs
+
+/-! ### across reported errors
+    The real decoder (and the model) stays usable after `ErrValidationFailure`: the rejected record has been consumed, the expected
+    proof is unchanged, and a further `Read` validates the next `rs+32` bytes against it. `readEvery` is the caller that never stops. -/
+
+/-- T7: whatever a caller that ignores every reported error ever obtains — any stream, any destination sizes — is a prefix of the
+    unique payload the digest commits to (or a SHA-256 collision is exhibited): the decoder never hands out unauthenticated data,
+    not even after it has reported an error -/
+theorem read_every_sound (hlen : ∀ x, (H x).length = 32) (enc : Enc) (recs : List Bytes) (hne : recs ≠ [])
+    (stream : Bytes) (maxRs : Nat) (st : State) (sizes : List Nat)
+    (hst : newDecoder H enc stream (formatDigestHeader enc (chain H recs)) maxRs = .ok st) :
+    MicePostError.readEvery H st sizes <+: recs.flatten ∨ Collision H :=
+  MicePostError.readEvery_sound H hlen enc recs hne stream maxRs st sizes hst
+
+/-- T8: in that never-stopping run, a clean end-of-stream reported by ANY call means the whole payload has been delivered -/
+theorem eof_complete_across_errors (hlen : ∀ x, (H x).length = 32) (enc : Enc) (recs : List Bytes) (hne : recs ≠ [])
+    (stream : Bytes) (maxRs : Nat) (st : State) (sizes : List Nat)
+    (hst : newDecoder H enc stream (formatDigestHeader enc (chain H recs)) maxRs = .ok st)
+    (heof : RecStatus.eof ∈ (MicePostError.readTrace H st sizes).map Prod.snd) :
+    MicePostError.readEvery H st sizes = recs.flatten ∨ Collision H :=
+  MicePostError.readEvery_eof_complete H hlen enc recs hne stream maxRs st sizes hst heof
+
+/-- T9: after a clean end-of-stream the decoder stays finished: every later `Read` hands out nothing and reports EOF again -/
+theorem stays_finished_after_eof (st st' : State) (n₀ : Nat) (bs : Bytes) (h : read H st n₀ = (st', bs, .eof)) :
+    bs = [] ∧ ∀ n, read H st' n = (st', [], .eof) := by
+  have := MicePostError.read_after_eof H st st' n₀ bs h
+  exact ⟨this.1, this.2.2.2⟩
 
 end WebPkg.C15
